@@ -591,7 +591,7 @@ fn json_edits(root: &J, tier: Tier, out: &mut dyn FnMut(J)) {
         }
     }
     collect_ints(root, &mut ints);
-    let fresh = ints.iter().max().copied().unwrap_or(0) + 1000;
+    let fresh = ints.iter().filter(|i| **i < 1_000_000_000).max().copied().unwrap_or(0) + 1000;
     for p in ps.iter().filter(|p| !p.is_empty()) {
         let (last, parent) = p.split_last().unwrap();
         // delete key / element
